@@ -169,7 +169,8 @@ class _RealFinder:
         return offset
 
     def _is_id_char(self, offset):
-        return self.code[offset].isalnum() or self.code[offset] == "_"
+        # identifier characters as Python defines them (XID_Continue), e.g. combining marks
+        return ("a" + self.code[offset]).isidentifier()
 
     def _find_string_start(self, offset):
         kind = self.code[offset]
